@@ -72,17 +72,20 @@ Lemma bind_bool_ok (r : res bool) (f : bool -> res unit) :
   r >>= f = Ok tt -> exists b, r = Ok b /\ f b = Ok tt.
 Proof. destruct r as [b|e]; cbn; [eauto|discriminate]. Qed.
 
-Lemma check_limits_tuple pn v c : check_limits pn v c = Ok tt -> inside_limits pn v c.
+Lemma bind_unit_ok (r : res unit) (f : unit -> res unit) : r >>= f = Ok tt -> r = Ok tt /\ f tt = Ok tt.
+Proof. destruct r as [[]|e]; cbn; [auto|discriminate]. Qed.
+
+Lemma check_tuple_ok pn v c : check_tuple pn v c = Ok tt -> inside_limits pn v c.
 Proof.
-  unfold check_limits, inside_limits. intros H lo hi G. rewrite G in H.
+  unfold check_tuple, inside_limits. intros H lo hi G. rewrite G in H.
   apply bind_bool_ok in H. destruct H as (b1 & H1 & H). destruct b1; [|discriminate].
   apply bind_bool_ok in H. destruct H as (b2 & H2 & H). destruct b2; [|discriminate]. auto.
 Qed.
 
-Lemma check_limits_minmax pn v c : getp c (pn ++ s_limits) = None -> check_limits pn v c = Ok tt ->
+Lemma check_minmax_ok pn v c : check_minmax pn v c = Ok tt ->
   inside_min pn v c /\ inside_max pn v c /\ not_inverted pn c.
 Proof.
-  unfold check_limits, inside_min, inside_max, not_inverted. intros N H. rewrite N in H.
+  unfold check_minmax, inside_min, inside_max, not_inverted. cbn zeta. intros H.
   apply bind_bool_ok in H. destruct H as (b1 & H1 & H). destruct b1; [discriminate|].
   apply bind_bool_ok in H. destruct H as (b2 & H2 & H). destruct b2; [discriminate|].
   apply bind_bool_ok in H. destruct H as (b3 & H3 & H). destruct b3; [discriminate|].
@@ -92,24 +95,16 @@ Proof.
   - intros lo hi G1 G2. rewrite G1, G2 in H1. exact H1.
 Qed.
 
-(* the property's reading: every limit parameter that exists is respected.  Holds unless <p>_limits coexists with
-   <p>_min/<p>_max (then checkLimits returns after the <p>_limits test). *)
+(* the property's reading: every limit parameter that exists is respected -- for every layout, also <p>_limits
+   together with <p>_min/<p>_max (checkLimits no longer returns after the <p>_limits test) *)
 Definition limits_respected (pn : str) (v : pyval) (c : cache) : Prop :=
   inside_limits pn v c /\ inside_min pn v c /\ inside_max pn v c.
 
-Definition limits_well_shaped (pn : str) (c : cache) : Prop :=
-  match getp c (pn ++ s_limits) with
-  | Some _ => getp c (pn ++ s_min) = None /\ getp c (pn ++ s_max) = None
-  | None => True
-  end.
-
 Lemma check_limits_respected pn v c :
-  limits_well_shaped pn c -> check_limits pn v c = Ok tt -> limits_respected pn v c.
+  check_limits pn v c = Ok tt -> limits_respected pn v c /\ not_inverted pn c.
 Proof.
-  unfold limits_well_shaped, limits_respected. intros W H. split; [apply check_limits_tuple, H|].
-  destruct (getp c (pn ++ s_limits)) eqn:G.
-  - destruct W as [W1 W2]. unfold inside_min, inside_max. rewrite W1, W2. split; intros ? ?; discriminate.
-  - destruct (check_limits_minmax pn v c G H) as (A & B & _). auto.
+  unfold check_limits, limits_respected. intros H. apply bind_unit_ok in H. destruct H as [H1 H2].
+  destruct (check_minmax_ok pn v c H2) as (A & B & C). split; [split; [apply check_tuple_ok, H1|auto]|exact C].
 Qed.
 
 (* integers: the readable form *)
@@ -535,7 +530,7 @@ Definition arg_guard (cm : command) (j : pyval) : bool :=
 
 Theorem do_refused md c rq :
   let o := handle_do md c rq in
-  (rq_acc rq = None -> o = fail c EPy [] []) /\
+  (rq_acc rq = None -> o = fail c (ESecop ProtocolError) [] []) /\
   (forall en, rq_acc rq = Some en ->
      (rq_mod rq <> md_name md -> o = fail c (ESecop NoSuchModule) [] []) /\
      (rq_mod rq = md_name md -> (forall cm, lookup_export md en <> Some (ACmd cm)) ->
